@@ -533,7 +533,12 @@ func normAtom(t *Term, nilness func(*Term) int) Atom {
 		switch in.Op {
 		case "index":
 			if m := in.Args[0]; m.Op == "call" && m.Name == "make" && len(m.Args) > 0 && strings.HasPrefix(m.Args[0].Name, "map[") {
-				return mkc(false) // lookup in a freshly made, never written map
+				// lookup in a freshly made, never written map: decided, with an informative label
+				at := Atom{Key: "Has(" + m.Key() + ", " + in.Args[1].Key() + ")", Pol: pol, Const: -1}
+				if !pol {
+					at.Const = 1
+				}
+				return at
 			}
 			if m := in.Args[0]; m.isConst() && m.Name == "nil" {
 				return mkc(false) // lookup in a nil map
